@@ -220,7 +220,7 @@ def rerun_worker(args):
         for inst, attr, sid, sign in find_slots(fresh.program):
             setattr(inst, attr, vals[sid] if sign > 0 else -vals[sid])
         exec_job(fresh, net)
-        want = scripth.norm_vm_trace(list(net.trace))
+        want = plain(scripth.norm_vm_trace(list(net.trace)))
         want_abort = net.aborted
         # history: first execution (complete, or stopped before step stop_at), then the execution under test
         reset_devices(net)
@@ -228,7 +228,7 @@ def rerun_worker(args):
         unchanged = same_listing(before, listing_of(job.program))
         reset_devices(net)
         exec_job(job, net)
-        got = scripth.norm_vm_trace(list(net.trace))
+        got = plain(scripth.norm_vm_trace(list(net.trace)))
         return want, want_abort, got, net.aborted, unchanged
 
     def harness(ctx):
@@ -384,6 +384,16 @@ def run(tier, seed):
         k += 1
         items.append({'kind': 'rerun', 'case': scripth.Case(p, tag='rerun-out-%d' % k, vm_steps=3000), 'stops': 8 if q else 40,
                       'stride': 3 if q else 1, 'max_paths': 200 if q else 2000, 'budget_s': 15 if q else 120})
+    # time patterns (literals and macros, alone and in `or` lists, in loops): execution must not alter them
+    TP = [('define lunch 12:00 time at lunch wait time at lunch or 13:30 wait time at lunch on all', 'tp-macro-reused'),
+          ('repeat 2 begin time at 8:00 or 9:30 or 1*:15 on all end time at 8:00 off all', 'tp-loop'),
+          ('define a 7:00 define b 2*:*5 time at a or b on all time at b or a off all time at a wait', 'tp-two-macros')]
+    for text, tag in TP:
+        class _TextCase(scripth.Case):
+            pass
+        c = scripth.Case([], tag='rerun-' + tag, vm_steps=3000)
+        c.text = text
+        items.append({'kind': 'rerun', 'case': c, 'stops': 8 if q else 30, 'stride': 2 if q else 1, 'max_paths': 200, 'budget_s': 15 if q else 60})
     # jobs with unresolved names would not compile: keep only texts that compile
     texts = [t for t in JOB_TEXTS if 'x_unset' not in t]
     dummy = scripth.Case([], tag='job')
